@@ -35,9 +35,12 @@ def plan(tier):
         for b in BACKENDS:
             g.append(dict(system='lpm', backend=b, N=2, B=2, Wk=2, K=44))
         return g
-    g = [dict(system='stp', backend=None, N=3, B=3, Wk=1, K=75)]
+    g = [dict(system='stp', backend=None, N=3, B=3, Wk=1, K=75), dict(system='stp', backend=None, N=4, B=3, Wk=1, K=95)]
     for b in BACKENDS:
         g.append(dict(system='lpm', backend=b, N=3, B=2, Wk=2, K=60))
+    # three workers, buffer up to 3 (thread pool only: the process back ends share this main loop and differ in the pool contract,
+    # which the n<=3, w<=2 groups above exercise); completeness threshold probed: unsat at K=64
+    g.append(dict(system='lpm', backend='t', N=3, B=3, Wk=3, K=64))
     return g
 
 
